@@ -32,10 +32,10 @@ class Gen:
         self.stats[k] = self.stats.get(k, 0) + 1
 
     # ---- definitions
-    def new_fn(self, arity, effects=None):
+    def new_fn(self, arity, effects=None, m=None):
         f = self.nfn
         self.nfn += 1
-        m = self.rng.choice(MODS)
+        m = m or self.rng.choice(MODS)
         cs = [self.rng.randint(0, 3)] + [self.rng.randint(1, 3) for _ in range(arity)]
         self.defs.append(f"fn f{f} lin {m} " + " ".join(map(str, cs)))
         if effects:
@@ -73,11 +73,15 @@ class Gen:
     def act(self, line):
         self.lines.append(line)
 
-    def mk_var(self):
-        x = self.rng.randint(0, 4)
-        self.act(f"var {x}")
+    def rand_val(self, pair):
+        if pair:
+            return f"({self.rng.randint(0, 2)},{self.rng.randint(0, 2)})"
+        return str(self.rng.randint(0, 4))
+
+    def mk_var(self, pair=False):
+        self.act(f"var {self.rand_val(pair)}")
         k = self.add_node("var", var=len(self.vars))
-        self.vars.append({"node": k, "alive": True})
+        self.vars.append({"node": k, "alive": True, "pair": pair})
         self.count("var")
 
     def mk_const(self):
@@ -85,9 +89,27 @@ class Gen:
         self.add_node("const")
         self.count("const")
 
+    def rand_effects(self):
+        effs = []
+        alive = [v for v, x in enumerate(self.vars) if x["alive"] and not x.get("pair")]
+        for _ in range(self.rng.choice([1, 1, 2])):
+            r = self.rng.random()
+            if r < 0.75 and alive:
+                v = self.rng.choice(alive)
+                effs.append(self.rng.choice([
+                    f"setvar v{v} {self.rng.randint(0, 4)}", f"modvar v{v} {self.rng.randint(1, 3)}",
+                    f"updvar v{v} {self.rng.randint(1, 3)}", f"replvar v{v} {self.rng.randint(0, 4)}",
+                    f"replwvar v{v} {self.rng.randint(1, 3)}"]))
+            elif self.obs:
+                effs.append(f"readobs o{self.rng.randrange(min(2, len(self.obs)))}")
+        for e in effs:
+            self.count("eff_" + e.split()[0])
+        return effs
+
     def mk_map(self):
         ar = self.rng.choice([1, 1, 1, 2, 2, 3, 4, 6])
-        f = self.new_fn(ar)
+        effs = self.rand_effects() if self.profile == "varw" and self.rng.random() < 0.45 else None
+        f = self.new_fn(ar, effs)
         args = [self.pick() for _ in range(ar)]
         self.act(f"map f{f} " + " ".join(f"n{a}" for a in args))
         self.add_node("map")
@@ -246,7 +268,8 @@ class Gen:
             return self.mk_observe()
         o = self.rng.choice(live)
         r = self.rng.random()
-        if r < 0.35:
+        if r < 0.35 and (o >= 2 or self.obs[o]["clones"] > 1):
+            # o0 and o1 keep one handle: closures and handlers may read them
             self.act(f"dropobs o{o}")
             self.obs[o]["clones"] -= 1
             self.count("dropobs")
@@ -268,7 +291,8 @@ class Gen:
         o = self.rng.choice(live)
         r = self.rng.random()
         if r < 0.55 or not self.tokens:
-            self.act(f"subscribe o{o} h0")
+            hid = self.rng.choice([0, 1, 2]) if self.profile == "varw" and self.vars[0]["alive"] else 0
+            self.act(f"subscribe o{o} h{hid}")
             # the token exists only if the call succeeded; the model decides — we track optimistically
             if not self.obs[o]["dis"]:
                 self.tokens.append(o)
@@ -291,6 +315,14 @@ class Gen:
             return
         v = self.rng.choice(alive)
         r = self.rng.random()
+        if self.vars[v].get("pair"):
+            if r < 0.85:
+                self.act(f"set v{v} {self.rand_val(True)}")
+                self.count("set")
+            else:
+                self.act(f"replace v{v} {self.rand_val(True)}")
+                self.count("replace")
+            return
         if r < 0.5:
             self.act(f"set v{v} {self.rng.randint(0, 4)}")
             self.count("set")
@@ -309,17 +341,132 @@ class Gen:
         elif r < 0.96:
             self.act(f"get v{v}")
             self.count("get")
-        else:
+        elif self.profile != "varw":
             self.act(f"dropvar v{v}")
             self.vars[v]["alive"] = False
             self.count("dropvar")
 
+    # ---- motifs: small directed shapes that the mechanisms of C01-C06 live on ------------------
+    def motif_heights(self):
+        """a bind over a bind whose right-hand side changes height; the outer closure builds a node it drops"""
+        self.mk_var(); v0 = len(self.nodes) - 1
+        self.mk_var(); v1 = len(self.nodes) - 1
+        last = v1
+        for _ in range(self.rng.randint(2, 4)):
+            f = self.new_fn(1)
+            self.act(f"map f{f} n{last}")
+            last = self.add_node("map")
+        b1 = self.nbody; self.nbody += 1
+        alts = [f"ret n{v1}", f"ret n{last}"]
+        self.rng.shuffle(alts)
+        self.defs.append(f"body b{b1} 2 " + " | ".join(alts))
+        self.bodies_info.append(b1)
+        self.act(f"bind b{b1} n{v0}")
+        m1 = self.add_node("bind")
+        f, g = self.new_fn(1), self.new_fn(1)
+        b2 = self.nbody; self.nbody += 1
+        self.defs.append(f"body b{b2} 2 map f{f} n{v1} ; map f{g} n{m1} ; ret %1 | map f{g} n{v0} ; lhsconst ; ret %1")
+        self.bodies_info.append(b2)
+        self.act(f"bind b{b2} n{m1}")
+        self.add_node("bind")
+        self.count("motif_heights")
+
+    def motif_shared(self):
+        """a chain observed first, then a bind on the chain's source whose closure builds over the chain's end"""
+        self.mk_var(); x = len(self.nodes) - 1
+        last = x
+        for _ in range(self.rng.randint(1, 3)):
+            f = self.new_fn(1)
+            self.act(f"map f{f} n{last}")
+            last = self.add_node("map")
+        if self.rng.random() < 0.7:
+            self.act(f"observe n{last}")
+            self.obs.append({"node": last, "clones": 1, "dis": False})
+        g, g2 = self.new_fn(1), self.new_fn(2)
+        b = self.nbody; self.nbody += 1
+        alts = [f"map f{g} n{last} ; ret %0", f"map f{g2} n{last} n{x} ; ret %0", f"ret n{last}"]
+        self.rng.shuffle(alts)
+        self.defs.append(f"body b{b} 3 " + " | ".join(alts))
+        self.bodies_info.append(b)
+        self.act(f"bind b{b} n{x}")
+        m = self.add_node("bind")
+        if self.rng.random() < 0.6:
+            f = self.new_fn(1)
+            self.act(f"map f{f} n{m}")
+            m = self.add_node("map")
+        self.act(f"observe n{m}")
+        self.obs.append({"node": m, "clones": 1, "dis": False})
+        self.count("motif_shared")
+
+    def motif_mapref(self):
+        """map_ref projections of a pair-valued var, consumers observed and unobserved while the source moves"""
+        self.mk_var(pair=True); src = len(self.nodes) - 1
+        a0, b0 = self.lines[-1].split()[1].strip("()").split(",")
+        self.cur = (int(a0), int(b0))
+        p = self.rng.choice([1, 2])
+        self.act(f"mapref p{p} n{src}")
+        r = self.add_node("mapref")
+        if self.rng.random() < 0.4:
+            self.act(f"mapref p0 n{r}")
+            r = self.add_node("mapref")
+        g = self.new_fn(1, m=7)
+        self.act(f"map f{g} n{r}")
+        m = self.add_node("map")
+        if self.rng.random() < 0.3 and not self.c01_safe and self.ncut < 16:
+            self.act(f"cutoff n{r} boxed c{self.new_cut()}")
+        self.act(f"observe n{src}")
+        self.obs.append({"node": src, "clones": 1, "dis": False})
+        self.act(f"observe n{m}")
+        self.obs.append({"node": m, "clones": 1, "dis": False})
+        om = len(self.obs) - 1
+        self.count("motif_mapref")
+        if self.rng.random() < 0.85:
+            # the consumer goes unobserved while the projection moves (or not), then comes back
+            v = self.nodes[src]["var"]
+            def setp(change_proj):
+                a, b = self.rng.randint(0, 2), self.rng.randint(0, 2)
+                keep = self.cur[p - 1]
+                new = [a, b]
+                if not change_proj:
+                    new[p - 1] = keep
+                    new[2 - p] = (self.cur[2 - p] + 1) % 3
+                else:
+                    new[p - 1] = (keep + 1 + self.rng.randint(0, 1)) % 3
+                self.cur = tuple(new)
+                self.act(f"set v{v} ({new[0]},{new[1]})")
+            self.act("stabilise")
+            setp(False); self.act("stabilise")
+            if om >= 2:
+                self.act(f"dropobs o{om}"); self.obs[om]["clones"] -= 1
+            else:
+                self.act(f"disallow o{om}"); self.obs[om]["dis"] = True
+            if self.rng.random() < 0.5:
+                self.act("stabilise")
+            setp(True)
+            if self.rng.random() < 0.7:
+                self.act("stabilise")
+            self.act(f"observe n{m}")
+            self.obs.append({"node": m, "clones": 1, "dis": False})
+            if self.rng.random() < 0.5:
+                setp(False)
+            self.act("stabilise")
+            self.count("motif_mapref_script")
+
     def build(self, n_actions):
         rng = self.rng
         self.defs += ["proj p0 id", "proj p1 fst", "proj p2 snd",
-                      "old g0 sum 5", "old g1 echo", "old g2 flag 1", "old g3 flag 0", "hdl h0"]
+                      "old g0 sum 5", "old g1 echo", "old g2 flag 1", "old g3 flag 0", "hdl h0",
+                      "hdl h1 modvar v0 1", "hdl h2 readobs o0"]
         for _ in range(rng.randint(1, 3)):
             self.mk_var()
+        if self.profile in ("bind", "general", "static", "expert", "varw"):
+            r = rng.random()
+            if r < 0.25 and self.profile != "static":
+                self.motif_heights()
+            elif r < 0.5 and self.profile != "static":
+                self.motif_shared()
+            elif r < 0.75:
+                self.motif_mapref()
         weights = {
             "general": dict(var=2, const=1, map=10, fold=3, mapref=3, mapold=3, zip=2, dependon=2, bind=6,
                             cutoff=4, observe=8, obs=6, sub=5, varw=14, stab=12),
@@ -329,6 +476,10 @@ class Gen:
                          cutoff=2, observe=8, obs=5, sub=2, varw=16, stab=12),
             "expert": dict(var=2, const=1, map=6, fold=1, mapref=1, mapold=1, zip=0, dependon=0, bind=2,
                            cutoff=2, observe=8, obs=5, sub=1, varw=16, stab=12, expert=6, driver=4),
+            "varw": dict(var=3, const=0, map=10, fold=1, mapref=1, mapold=1, zip=0, dependon=0, bind=2,
+                         cutoff=2, observe=8, obs=3, sub=5, varw=20, stab=12),
+            "life": dict(var=1, const=0, map=2, fold=0, mapref=0, mapold=0, zip=0, dependon=0, bind=1,
+                         cutoff=0, observe=10, obs=16, sub=10, varw=6, stab=10),
             "subs": dict(var=1, const=0, map=5, fold=0, mapref=1, mapold=1, zip=0, dependon=0, bind=2,
                          cutoff=2, observe=8, obs=8, sub=14, varw=12, stab=12),
         }[self.profile]
